@@ -904,7 +904,10 @@ _cfl_clean:
     TPool_free(wPool);
     TPool_free(tPool);
     if (finput) fclose(finput);
-    if (foutput && !LZ4IO_isStdout(output_filename)) fclose(foutput);  /* do not close stdout */
+    if (foutput) {
+        if (LZ4IO_isStdout(output_filename) ? fflush(foutput) : fclose(foutput))  /* do not close stdout */
+            END_PROCESS(58, "Write error : cannot write compressed data : %s", strerror(errno));
+    }
 
     return clResult;
 }
@@ -1341,7 +1344,10 @@ LZ4IO_compressFilename_extRess_MT(unsigned long long* inStreamSize,
 
     /* Release file handlers */
     fclose (srcFile);
-    if (!LZ4IO_isStdout(dstFileName)) fclose(dstFile);  /* do not close stdout */
+    /* compressed data may still sit in the stdio buffer : a write error must surface
+     * before success is reported and before the source can be removed */
+    if (LZ4IO_isStdout(dstFileName) ? fflush(dstFile) : fclose(dstFile))  /* do not close stdout */
+        END_PROCESS(58, "Write error : cannot write compressed data : %s", strerror(errno));
 
     /* Copy owner, file permissions and modification time */
     {   stat_t statbuf;
@@ -1471,7 +1477,10 @@ LZ4IO_compressFilename_extRess_ST(unsigned long long* inStreamSize,
 
     /* Release file handlers */
     fclose (srcFile);
-    if (!LZ4IO_isStdout(dstFileName)) fclose(dstFile);  /* do not close stdout */
+    /* compressed data may still sit in the stdio buffer : a write error must surface
+     * before success is reported and before the source can be removed */
+    if (LZ4IO_isStdout(dstFileName) ? fflush(dstFile) : fclose(dstFile))  /* do not close stdout */
+        END_PROCESS(58, "Write error : cannot write compressed data : %s", strerror(errno));
 
     /* Copy owner, file permissions and modification time */
     {   stat_t statbuf;
@@ -2437,6 +2446,10 @@ LZ4IO_decompressSrcFile(unsigned long long* outGenSize,
 
     /* Close input */
     fclose(finput);
+    /* decoded data may still sit in the stdio buffer : a write error must surface
+     * before success is reported and before the source can be removed */
+    if (result==0 && fflush(foutput))
+        END_PROCESS(56, "Write error : cannot write decoded data : %s", strerror(errno));
     if (prefs->removeSrcFile && result==0) {  /* --rm : only after successful decoding */
         if (remove(input_filename))
             END_PROCESS(45, "Remove error : %s: %s", input_filename, strerror(errno));
@@ -2472,7 +2485,8 @@ LZ4IO_decompressDstFile(unsigned long long* outGenSize,
     ress.dstFile = foutput;
     result = LZ4IO_decompressSrcFile(outGenSize, ress, input_filename, output_filename, prefs);
 
-    fclose(foutput);
+    if (fclose(foutput))
+        END_PROCESS(57, "Write error : cannot close %s : %s", output_filename, strerror(errno));
 
     /* Copy owner, file permissions and modification time */
     if ( stat_result != 0
